@@ -228,6 +228,23 @@ def _lineage_case(case):
             d, d2 = s.py_get_daughters(), s2.py_get_daughters()
             da = [idx.get(id(x)) if x is not None else None for x in d]; db = [idx2.get(id(x)) if x is not None else None for x in d2]
             if da != db: out["problems"].append("pickled lineage: daughter links of cell %d differ (%r vs %r)" % (i, da, db)); break
+    # one cell of the lineage pickled / deep-copied ON ITS OWN (a branch handed to an analysis): it still knows its mother, with her data,
+    # and a cell linked upwards only (py_set_parent, as tracking data are assembled) keeps that link  (seeded change S7_C17: the mother link
+    # was dropped from the pickle and restored only from the mother's daughter slots)
+    kids = [i for i in range(lin.py_size()) if lin.py_get_schnitz(i).py_get_parent() is not None]
+    for i in kids[:3]:
+        s = lin.py_get_schnitz(i); s2 = pickle.loads(pickle.dumps(s)) if case["how"] == "pickle" else copy.deepcopy(s)
+        p, p2 = s.py_get_parent(), s2.py_get_parent()
+        if p2 is None: out["problems"].append("cell pickled on its own: mother link of cell %d lost (original has a mother)" % i); break
+        if not _nan_eq(np.asarray(p.py_get_data()).tolist(), np.asarray(p2.py_get_data()).tolist()): out["problems"].append("cell pickled on its own: the mother of cell %d has other data" % i); break
+        if not _nan_eq(np.asarray(s.py_get_data()).tolist(), np.asarray(s2.py_get_data()).tolist()): out["problems"].append("cell pickled on its own: data of cell %d differ" % i); break
+    if lin.py_size() >= 1:
+        from bioscrape.types import Schnitz
+        root = lin.py_get_schnitz(0)
+        orphan = Schnitz(np.asarray(root.py_get_time()).copy(), np.asarray(root.py_get_data()).copy() + 1.0, np.asarray(root.py_get_volume()).copy()); orphan.py_set_parent(root)
+        o2 = pickle.loads(pickle.dumps(orphan)) if case["how"] == "pickle" else copy.deepcopy(orphan)
+        if o2.py_get_parent() is None: out["problems"].append("cell linked with py_set_parent: mother link lost after %s" % case["how"])
+        elif not _nan_eq(np.asarray(o2.py_get_parent().py_get_data()).tolist(), np.asarray(root.py_get_data()).tolist()): out["problems"].append("cell linked with py_set_parent: mother's data differ after %s" % case["how"])
     out["cells"] = len(a)
     return out
 
